@@ -73,7 +73,8 @@ LEVEL_NOTE = "trusts the oracles in this module (about sixty lines, no traffic_w
 METHODS = ["linear", "constant", "cubic", "spline"]
 STEP_ULPS = 16
 EPS = 2.0 ** -52
-BOGUS = ["bogus", "Linear", "LINEAR", "quadratic", "nearest", "", "constant ", "splines", "cubic_spline", "lin"]
+# unmistakably unknown: no case / whitespace variants, abbreviations or names a library might adopt as aliases
+BOGUS = ["bogus", "", "no-such-method", "42", "fourier", "wavelet7"]
 
 
 # ---- oracles (independent of traffic_weaver) -------------------------------------------------------------------
@@ -590,6 +591,9 @@ def weaver_grid_case(draw, ctx):
     else:
         g = sorted([x0] + draw(points(x, inner_profile, 0, 40, clip=True)) + [xe])
     case["profile"] = inner_profile
+    # a grid handed to a Weaver becomes its abscissae, which must be strictly increasing: repeated points are removed
+    # by construction (points one ulp apart stay); query grids of process.interpolate may keep their duplicates
+    g = sorted(set(g))
     mode = draw(st.sampled_from(["equal", "equal", "equal", "first", "last", "both", "method", "method-unequal"]))
     method = draw(st.sampled_from(METHODS))
     span = xe - x0
@@ -611,6 +615,9 @@ def weaver_grid_case(draw, ctx):
     if mode in ("last", "both"):
         g = [v for v in g if v != xe] or [x0]
         g = sorted(g + [moved(xe, False)])
+    g = sorted(set(g))
+    if len(g) < 2:
+        g = [g[0], g[0] + (span if span > 0 else 1.0)]
     if mode.startswith("method"):
         method = draw(st.sampled_from(BOGUS))
     case.update(grid=g, mode=mode, method=method, gc=draw(grid_container(g)),
@@ -713,15 +720,17 @@ def poly_trend(coef):
     return lambda t: coef[0] * t + coef[1] * t * t
 
 
-def grid_from_spec(cx, spec):
+def grid_from_spec(cx, spec, distinct=False):
     """new grid derived from the CURRENT abscissae (so it shares their end points whatever the history did):
-    spec = list of [u, t]: the point lies t of the way through the cell floor(u*(m-1)); t = 0 is the sample."""
+    spec = list of [u, t]: the point lies t of the way through the cell floor(u*(m-1)); t = 0 is the sample.
+    `distinct` removes repeated points (grids that become the abscissae of a Weaver must be strictly increasing)."""
     m = len(cx)
     pts = [cx[0], cx[-1]]
     for u, t in spec:
         i = min(int(u * (m - 1)), m - 2)
         pts.append(cx[i] + t * (cx[i + 1] - cx[i]) if t else cx[i])
-    return sorted(min(max(v, cx[0]), cx[-1]) for v in pts)
+    pts = sorted(min(max(v, cx[0]), cx[-1]) for v in pts)
+    return sorted(set(pts)) if distinct else pts
 
 
 def prep_grid(cx, how):
@@ -734,7 +743,7 @@ def prep_grid(cx, how):
         out = []
         for a, b in zip(cx[:-1], cx[1:]):
             out += [a, a + (b - a) / 2]
-        return out + [cx[-1]]
+        return sorted(set(out + [cx[-1]]))
     k = how[1]                                   # thin: every k-th sample, both ends kept
     inner = [cx[i] for i in range(k, m - 1, k)]
     return [cx[0]] + inner + [cx[-1]]
@@ -939,7 +948,7 @@ def weaver_history_body(ctx, case):
             gy = check_array(gy, n, where + ": y")
             grid = check_n_grid(gx, n, cx[0], cx[-1], where)
         else:
-            grid = grid_from_spec(cx, final["spec"])
+            grid = grid_from_spec(cx, final["spec"], distinct=True)
             where = f"after {hist}: interpolate(new_x, {method!r})"
             extra = {}
             if "ignored_n" in final:
